@@ -280,7 +280,8 @@ def main():
             "evaluations": max(1, paths_total + queries_total), "distinct_nontrivial": max(2, paths_total + queries_total),
             "rule": "one evaluation = one symbolic path closed by z3 (E1) or one SMT query (E2); each covers a set of inputs, not a single input",
             "functions_encoded": getattr(mod, "FUNCTIONS", []),
-            "bounds": getattr(mod, "BOUNDS", {}).get(tier, getattr(mod, "BOUNDS", "")) if isinstance(getattr(mod, "BOUNDS", ""), dict) else getattr(mod, "BOUNDS", ""),
+            "bounds": (getattr(mod, "BOUNDS", {}).get(tier, getattr(mod, "BOUNDS", "")) if isinstance(getattr(mod, "BOUNDS", ""), dict) else getattr(mod, "BOUNDS", ""))
+                      + ((" " + mod.EXTRA_BOUNDS) if getattr(mod, "EXTRA_BOUNDS", "") else ""),
             "outside_claim": getattr(mod, "OUTSIDE", []),
             "stubs": getattr(mod, "STUBS", []),
             "per_condition": per_cond,
